@@ -273,6 +273,71 @@ def _mk_as_nested_fs(rng, c, spec):
     return True
 
 
+def _mk_nc_stoploss(rng, c, spec):
+    """Non-coding transcript (every ATG opens an ORF) with a planted ORF whose start codon is CREATED by an SNV (start gain) or is
+    a reference ATG, followed by one or two in-frame stop codons that SNVs REMOVE (stop loss), with cleavable sequence behind
+    each: the read-through peptides need the stop-lost records (and the start-gain record) in their labels."""
+    c.ref = refgen.make_reference(rng, n_genes=1, coding_p=0.0, min_exons=1, max_exons=2, exon_len=(150, 220))
+    tx = c.ref.genes[0].txs[0]
+    if tx.coding or tx.tx_len() < 150:
+        return False
+    gene = tx.gene
+
+    def setb(i, b):
+        c.ref.set_gene_base(gene, tx.tx2gene(i), b)
+
+    def gseq():
+        return c.ref.tx_seq(tx)
+    s0 = rng.randint(3, 20)
+    n_stop = rng.choice([1, 1, 2])
+    q1 = s0 + 3 * rng.randint(6, 12)
+    q2 = q1 + 3 * rng.randint(6, 12)
+    end = (q2 if n_stop == 2 else q1) + 3 * rng.randint(8, 14)
+    if end + 3 > tx.tx_len():
+        return False
+    # scrub stops in the frame of s0 up to `end`, then plant the elements
+    for k in range(s0, end, 3):
+        while gseq()[k:k + 3] in ('TAA', 'TAG', 'TGA'):
+            setb(k + rng.randrange(3), rng.choice('ACGT'))
+    # sprinkle K/R codons so that there are cleavage sites
+    for k in range(s0 + 6, end - 3, 3):
+        if rng.random() < 0.2:
+            for j, b in enumerate(rng.choice(['AAA', 'AAG', 'CGT', 'AGA'])):
+                setb(k + j, b)
+    vs = {}
+    start_gain = rng.random() < 0.6
+    if start_gain:
+        x = rng.choice('ACT')
+        for j, b in enumerate('AT' + x):
+            setb(s0 + j, b)
+        v = Small(gene, tx, tx.tx2gene(s0 + 2), c.ref.gene_seq(gene)[tx.tx2gene(s0 + 2)], 'G')
+        vs[v.id] = v
+    else:
+        for j, b in enumerate('ATG'):
+            setb(s0 + j, b)
+    for q in ([q1, q2] if n_stop == 2 else [q1]):
+        stop = rng.choice(['TAA', 'TAG', 'TGA'])
+        for j, b in enumerate(stop):
+            setb(q + j, b)
+        pos = rng.choice([0, 0, 1, 2])
+        alts = [b for b in 'ACGT' if b != stop[pos] and (stop[:pos] + b + stop[pos + 1:]) not in ('TAA', 'TAG', 'TGA')]
+        g = tx.tx2gene(q + pos)
+        v = Small(gene, tx, g, c.ref.gene_seq(gene)[g], rng.choice(alts))
+        vs[v.id] = v
+    # a terminating stop after `end` so that the ORF closes
+    for j, b in enumerate('TAA'):
+        setb(end + j, b)
+    # one further SNV somewhere behind the first stop (another variant in the read-through peptides)
+    if rng.random() < 0.7:
+        t = rng.randint(q1 + 4, end - 2)
+        v = gvfgen.rand_small(rng, c.ref, tx, tx.tx2gene(t), max_indel=1, snv_p=1.0)
+        if v is not None:
+            vs[v.id] = v
+    c.files = [('v1.gvf', 'gSNP', sorted(vs.values(), key=lambda v: (v.gstart, v.gend, v.alt)))]
+    c.cfg.update(rule='trypsin', exception=None)
+    return True
+
+
 def _mk_as_nested(rng, c, spec):
     return _mk_as(rng, c, spec, nested=True)
 
